@@ -583,6 +583,18 @@ func (s *Stage) Recover() {
 			defer wg.Done()
 			for f := range ch {
 				finalFile := s.partialToFinal(f)
+				if existing := s.fromCache(finalFile.path); existing != nil &&
+					existing.state >= stateFinalized &&
+					existing.hash == finalFile.hash {
+					// A retransmission of a version that was already logged
+					// and put away was in flight when the process stopped; a
+					// complete but not yet validated copy cannot be the one
+					// the log record is about
+					s.logInfo("Ignoring duplicate (recover):", finalFile.name)
+					os.Remove(finalFile.path + fullExt)
+					os.Remove(finalFile.path + compExt)
+					continue
+				}
 				s.toCache(finalFile, stateReceived)
 				s.process(finalFile)
 			}
